@@ -16,7 +16,7 @@ extern "C" void harness_c11_subs()
     Recipe r;
     r.root = g.gen(r, (int)verif_param("depth", 2), "t");
     ve::Env env = ve::std_env();
-    RCP<const Basic> e = build(r, r.root);
+    RCP<const Basic> e = build_or_skip(r, r.root);
     RCP<const Basic> x = symbol("x"), y = symbol("y"), z = symbol("z");
     // replacement value for x: a number, the other symbol, or a small expression
     int vk = (int)verif_choice("vkind", 4);
